@@ -124,17 +124,24 @@ def _run_hyp(prop, cl, n, seed, tier, kf_open):
 
     stats = Stats()
     last_fail = {}
+    recent = []  # the last few cases executed before the current one (a result that depends on EARLIER calls needs them to replay)
 
     def body(case):
+        prelude = list(recent)
+        recent.append(case)
+        del recent[:-3]
         try:
             ctx = run_case(cl, case, kf_open)
         except (core.Inconclusive, MemoryError):
             stats.classes["inconclusive:out-of-memory"] = stats.classes.get("inconclusive:out-of-memory", 0) + 1
             return
         except Violation as v:
+            if "first" not in last_fail:  # the first violating case of the run, with the cases that preceded it
+                last_fail["first"] = {"case": case, "msg": str(v), "prelude": prelude}
             last_fail["case"] = case
             last_fail["msg"] = str(v)
             last_fail["kind"] = "violation"
+            last_fail["prelude"] = prelude  # replayed before the case: harmless for a stateless library, needed for a stateful one
             raise
         except Exception as e:  # noqa
             last_fail["case"] = case
@@ -160,11 +167,39 @@ def _run_hyp(prop, cl, n, seed, tier, kf_open):
     except hypothesis.errors.HypothesisException as e:
         failure = {"kind": "harness", "msg": "hypothesis: %s: %s" % (type(e).__name__, e),
                    "case": last_fail.get("case"), "tb": traceback.format_exc()}
+        # A violation that Hypothesis could not reproduce when it re-ran the same case (FlakyFailure) means the library's answer
+        # depended on what had been called BEFORE (a module-level memo, a shared buffer).  The checks are deterministic functions
+        # of the case, so try the first violating case again after the cases that preceded it: if the violation comes back it
+        # is reported as a violation whose replay file carries that prelude; if not, it stays a harness error (exit 2).
+        first = last_fail.get("first")
+        if first is not None and "Flaky" in type(e).__name__:
+            msg = _replay_with_prelude(cl, first["prelude"], first["case"], kf_open)
+            if msg is not None:
+                failure = {"kind": "violation", "case": first["case"], "prelude": first["prelude"],
+                           "msg": msg + "  [result depends on earlier calls: reproduced only after %d preceding case(s)]" % len(first["prelude"])}
     except Exception as e:  # noqa
         failure = dict(last_fail) if last_fail else {"kind": "harness", "msg": repr(e), "case": None,
                                                        "tb": traceback.format_exc()}
         failure["kind"] = "harness"
+    if failure:
+        failure.pop("first", None)
     return stats, failure
+
+
+def _replay_with_prelude(cl, prelude, case, kf_open):
+    """Run the prelude cases (their own outcome is ignored), then `case`; the violation message, or None."""
+    for pc in prelude:
+        try:
+            run_case(cl, pc, kf_open)
+        except Exception:  # noqa
+            pass
+    try:
+        run_case(cl, case, kf_open)
+    except Violation as v:
+        return str(v)
+    except Exception:  # noqa
+        return None
+    return None
 
 
 def _run_machine(prop, cl, n, seed, tier, kf_open):
@@ -271,6 +306,8 @@ def write_replay(prop, clause_name, failure, seed, tier, subdir="replays"):
     with open(path, "w") as f:
         rec = [("property", prop), ("clause", clause_name), ("case", failure.get("case")),
                ("message", failure.get("msg")), ("seed", seed), ("tier", tier)]
+        if failure.get("prelude"):
+            rec.insert(3, ("prelude", failure.get("prelude")))  # cases to run first (same clause): the result depends on earlier calls
         f.write("{\n" + ",\n".join(" %s: %s" % (json.dumps(k), json.dumps(v, default=core._default))
                                     for k, v in rec) + "\n}\n")
     return path
@@ -281,6 +318,8 @@ def do_replay(prop, path, kf_open):
         rec = json.load(f)
     mod = load_module(prop)
     cl = find_clause(mod, rec["clause"])
+    if rec.get("prelude"):
+        return _replay_with_prelude(cl, rec["prelude"], rec["case"], kf_open)
     try:
         run_case(cl, rec["case"], kf_open)
     except Violation as v:
